@@ -208,13 +208,6 @@ PSY_INTERNAL:
 
     SyntaxKind syntaxK_;  // Keep the same underlying type of SyntaxKind.
 
-    std::uint16_t byteSize_;
-    std::uint16_t charSize_;
-    std::uint32_t byteOffset_;
-    std::uint32_t charOffset_;  // UTF-16
-
-    std::size_t matchingBracket_;
-
     struct BitFields
     {
         std::uint16_t atStartOfLine_ : 1;
@@ -229,6 +222,13 @@ PSY_INTERNAL:
         std::uint16_t BF_all_;
         BitFields BF_;
     };
+
+    std::uint32_t byteSize_;  // A literal may be longer than 65535 bytes.
+    std::uint32_t charSize_;
+    std::uint32_t byteOffset_;
+    std::uint32_t charOffset_;  // UTF-16
+
+    std::size_t matchingBracket_;
 
     unsigned int lineno_;
     unsigned int column_;
